@@ -508,6 +508,9 @@ func (l *leader) setCommitIndex(index uint64) {
 
 func (r *Raft) setCommitIndex(index uint64) (configCommitted bool) {
 	r.commitIndex = index
+	if verif {
+		verifPoint("commit.advance", r.snaps.dir)
+	}
 	if trace {
 		println(r, "commitIndex", r.commitIndex)
 	}
